@@ -192,6 +192,8 @@ SEEDS.update({
 SEEDS.update({
  'C13e': ('_capture_scheduled_job keeps the compare-and-swap filter only for never-captured jobs; a stale job is re-captured unconditionally',
           'an instance dies between capture and delete; after captured_job_timeout two survivors both select the stale row before either re-captures it, and the second capture lands on a later clock second than the first'),
+ 'C07e': ('_get_next_indexes counts only RUNNING / IDLE item executions as in progress (a PAUSED item no longer holds its index)',
+          'concurrency below the item count; one running item is paused (on_action_update PAUSED); another item completes while the first is still paused and items remain unscheduled'),
  'C17e': ('delete_cron_trigger returns len(session.deleted) after session.delete() instead of the rowcount of DELETE ... WHERE id',
           'the last execution of a counted trigger; processor B has read the row inside delete_cron_trigger when processor A deletes it and starts the workflow'),
 })
